@@ -388,12 +388,19 @@ impl FeoxStore {
             sector += sectors_needed as u64;
         }
 
+        let superseded = retired_extents.len();
         if let Some(now) = recovery_time {
             self.remove_expired_recovery_winners(now, format, &mut retired_extents)?;
         }
 
         if !self.read_only {
-            disk.retire_extents(&retired_extents)?;
+            // Superseded generations are retired first, in transactions of their own. A
+            // long list is committed as several journal records; an expired winner must
+            // not leave the device while an older generation of its key could still be
+            // found by a recovery that restarts between two of them.
+            let (superseded, expired) = retired_extents.split_at(superseded);
+            disk.retire_extents(superseded)?;
+            disk.retire_extents(expired)?;
         }
 
         if last_end < total_sectors {
